@@ -45,6 +45,8 @@ type Vocab struct {
 	Nums  []string // minmax-able top-level keys
 	// BigNums draws boundary-magnitude values for the indexed keys half the time.
 	BigNums bool
+	// pending is the second half of a membership-key collision waiting for a later row.
+	pending *[2]string
 }
 
 func NewVocab(r *core.Rand) *Vocab {
@@ -260,6 +262,30 @@ func (v *Vocab) Row(r *core.Rand, vid string) map[string]any {
 			row[k] = v.Text(r) // non-numeric under an indexed key
 		default:
 			row[k] = smallNumber(r)
+		}
+	}
+	// Membership-key collisions: the field:token key is path + "::" + token, which is not
+	// injective -- (path "k::q", token "t") and (path "k", token "q::t") share the key
+	// "k::q::t". Both halves are planted, in one row or in consecutive rows (same block or
+	// neighbouring blocks of one file), so that anything that treats "pair already seen" as
+	// "token/field already seen" loses an entry.
+	if v.pending != nil && r.Chance(0.7) {
+		row[v.pending[0]] = v.pending[1]
+		v.pending = nil
+	}
+	if r.Chance(0.06) {
+		k := core.Pick(r, []string{"svc", "k", "a", "mod"})
+		q := core.Pick(r, []string{"mod", "q", "x1", "b"})
+		t := "t" + strings.ToLower(fmt.Sprintf("%x", r.Intn(1<<16)))
+		first, second := [2]string{k + "::" + q, t}, [2]string{k, q + "::" + t}
+		if r.Bool() {
+			first, second = second, first
+		}
+		row[first[0]] = first[1]
+		if r.Bool() {
+			row[second[0]] = second[1]
+		} else {
+			v.pending = &second
 		}
 	}
 	if r.Chance(0.03) {
